@@ -384,6 +384,8 @@ structure Facts where
   unchangedChecksType : Tri   -- RegisterPattern's early return also requires the stored entry to be persistent
   saveAtomic : Tri            -- SaveSettingsToFilesystem writes a temp file and renames it over settings.json
   unchangedChecksDisk : Tri   -- the early return also requires s.model.Patterns[key] to equal the new registration
+  comparePatternExact : Tri   -- name.ComparePattern is the exact, case-sensitive comparison `matchesPat` models
+  summonResolvesFresh : Tri   -- hydra.createNewSwamp resolves the settings with GetBySwampName each time (no memo keyed by the name)
   deriving Repr
 
 def cfgOf (f : Facts) : Cfg :=
@@ -392,10 +394,11 @@ def cfgOf (f : Facts) : Cfg :=
 
 def persistKnown (f : Facts) : Bool :=
   f.persistsInMem != .unknown && f.persistsIdle != .unknown && f.persistsWi != .unknown && f.persistsSize != .unknown &&
-  f.unchangedChecksType != .unknown && f.saveAtomic != .unknown && f.unchangedChecksDisk != .unknown
+  f.unchangedChecksType != .unknown && f.saveAtomic != .unknown && f.unchangedChecksDisk != .unknown &&
+  f.comparePatternExact == .yes && f.summonResolvesFresh == .yes
 
 def classify (f : Facts) : Verdict :=
-  if !persistKnown f then .undetermined "a persisted field of the pattern model was not recognised"
+  if !persistKnown f then .undetermined "a persisted field of the pattern model, name.ComparePattern or the settings resolution of hydra.createNewSwamp was not recognised"
   else match f.lookup with
   | .iteratesMap =>
     .violated (["C21-map-order-lookup"] ++ (if (cfgOf f).persistsAll then [] else ["C21-restart-loses-field"]) ++
